@@ -1,4 +1,888 @@
-import RaptorModel.Model.Split
+import RaptorModel.Lemmas.SplitLemmas
+import Mathlib.Algebra.Order.Ring.Unbundled.Rat
+/-!
+# C13 — coarse/fine splittings terminate and label every point
+
+Property: every weight-driven coarsening routine (PMIS, CLJP) terminates and labels every point
+coarse or fine; with caller-supplied weights the result does not depend on how the vertices are
+distributed over processes.
+
+**Partition independence.** `Split.pmis S rand natCast` and `Split.cljp S rand natCast` are
+functions of the strength graph `S` and the weight data only: the model runs synchronous rounds in
+which every vertex reads the labels and weights of the previous round, and no process count or
+ownership map occurs among the arguments. There is nothing to prove beyond the fact that the model
+IS that function; the correspondence check (Driver/C13) compares the distributed implementation,
+for every partition, with this one function.
+
+All theorems are over an arbitrary linearly ordered weight type `W` with `0`, `1` (and `+`, `-`
+where the model needs them); the only order fact used by the termination theorems is `0 < 1`,
+stated as a hypothesis `h01`. Graphs are arbitrary lists of rows (any size, out-of-range column
+indices and self-loops allowed).
+
+## What is proved (numbers = targets of the task)
+
+1. `pmisRound_length`, `pmisRound_labelsOk` — shape, labels stay in `{1,0,-1}`.
+2. `pmisRound_keeps`, `pmisRound_keeps_coarse`, `pmisRound_keeps_fine` — assigned stays assigned
+   (needs no invariant).
+3. `WInv` — assigned vertices have weight `< 1`, unassigned `≥ 1`. (The requested form "assigned
+   vertices have weight 0" — here `WInv0` — is FALSE for the initial PMIS state: a vertex nobody
+   depends on is fine at once but keeps its weight `rand i`. `WInv0` is preserved by a round,
+   `pmisRound_winv0`, and holds after every CLJP round, `cljpRound_winv0`.) `pmisInit_inv`,
+   `pmisRound_winv`, `pmisRound_inv`; `w0_lt_one_iff` relates "initial weight `< 1`" to "nobody
+   depends on the vertex" under the `rand ∈ [0,1)` / `natCast` hypotheses.
+4. `newCoarse_nonempty`, `pmisRound_progress`, `pmisRound_distinct` — progress holds WITHOUT
+   distinct weights (an unassigned vertex of maximum weight is selected even with ties).
+5. `pmis_iter_total`, `pmis_total` — after `S.length` rounds everything is labelled; `total = true`.
+6. `pmis_coarse_pair` (if `i` depends on `j` and both end coarse then `i` was selected strictly
+   earlier, while `j` was unassigned), `pmis_independent` (mutually dependent vertices are never
+   both coarse), `pmis_coarseCovers`; adjacent coarse vertices DO occur on non-symmetric graphs —
+   see the `example`s at the end.
+7. `pmis_fine_reason`, `pmis_fine_reason'`.
+8. `cljpRound_shape'`, `cljpRound_labelsOk`, `cljpRound_keeps`, `cljpRound_winv0`,
+   `cljpRound_progress`, `cljp_total`.
+9. `total_iff`, `fineHasCoarse_iff`, `hasUsableEdge_iff`, `total_of_all_assigned`.
+-/
+set_option linter.unusedSectionVars false
+
 namespace Raptor.C13
-theorem placeholder : (1 : Nat) = 1 := rfl
+open Raptor.Split
+
+/-! ## State predicates -/
+section Defs
+variable {W : Type} [LinearOrder W] [Zero W] [One W]
+
+/-- both lists of the state have one entry per vertex -/
+def Shape (S : Graph) (s : St W) : Prop :=
+  s.labels.length = S.length ∧ s.weights.length = S.length
+
+/-- labels are coarse (1), fine (0) or unassigned (-1) -/
+def LabelsOk (S : Graph) (s : St W) : Prop :=
+  ∀ i, i < S.length → lab s i = 1 ∨ lab s i = 0 ∨ lab s i = -1
+
+/-- weight invariant: assigned vertices have weight below 1, unassigned vertices at least 1 -/
+def WInv (S : Graph) (s : St W) : Prop :=
+  ∀ i, i < S.length → (lab s i ≠ -1 → wt s i < 1) ∧ (lab s i = -1 → 1 ≤ wt s i)
+
+/-- strong weight invariant: assigned vertices have weight exactly 0 -/
+def WInv0 (S : Graph) (s : St W) : Prop :=
+  ∀ i, i < S.length → (lab s i ≠ -1 → wt s i = 0) ∧ (lab s i = -1 → 1 ≤ wt s i)
+
+/-- unassigned vertices have pairwise distinct weights -/
+def Distinct (S : Graph) (s : St W) : Prop :=
+  ∀ i j, i < S.length → j < S.length → lab s i = -1 → lab s j = -1 → wt s i = wt s j → i = j
+
+/-- number of unassigned vertices -/
+def unassignedCount (S : Graph) (s : St W) : Nat :=
+  (List.range S.length).countP fun i => lab s i == -1
+
+/-- the three invariants every round preserves -/
+def Inv (S : Graph) (s : St W) : Prop := Shape S s ∧ LabelsOk S s ∧ WInv S s
+
+theorem WInv0.toWInv {S : Graph} {s : St W} (h01 : (0 : W) < 1) (h : WInv0 S s) : WInv S s :=
+  fun i hi => ⟨fun hne => by rw [(h i hi).1 hne]; exact h01, (h i hi).2⟩
+
+theorem wt_out_of_range {S : Graph} {s : St W} (hs : Shape S s) {v : Nat} (hv : S.length ≤ v) :
+    wt s v = 0 := by
+  unfold wt
+  exact getD_of_length_le _ _ _ (by rw [hs.2]; exact hv)
+
+theorem lab_out_of_range {S : Graph} {s : St W} (hs : Shape S s) {v : Nat} (hv : S.length ≤ v) :
+    lab s v = 0 := by
+  unfold lab
+  exact getD_of_length_le _ _ _ (by rw [hs.1]; exact hv)
+
+theorem unassignedCount_le (S : Graph) (s : St W) : unassignedCount S s ≤ S.length := by
+  unfold unassignedCount
+  have h := List.countP_le_length (p := fun i => lab s i == -1) (l := List.range S.length)
+  rwa [List.length_range] at h
+
+theorem unassignedCount_eq_zero {S : Graph} {s : St W} :
+    unassignedCount S s = 0 ↔ ∀ i, i < S.length → lab s i ≠ -1 := by
+  simp [unassignedCount, List.countP_eq_zero]
+
+end Defs
+
+/-! ## 1–4. One PMIS round -/
+section PmisRound
+variable {W : Type} [LinearOrder W] [Zero W] [One W]
+variable {S : Graph} {s : St W}
+
+/-- (1) a round produces one label and one weight per vertex -/
+theorem pmisRound_length (S : Graph) (s : St W) :
+    (pmisRound S s).labels.length = S.length ∧ (pmisRound S s).weights.length = S.length := by
+  constructor
+  · rw [pmisRound_labels]; simp
+  · rw [pmisRound_weights]; simp
+
+theorem pmisRound_shape (S : Graph) (s : St W) : Shape S (pmisRound S s) := pmisRound_length S s
+
+/-- (2) an assigned vertex keeps its label -/
+theorem pmisRound_keeps {i : Nat} (hi : i < S.length) (h : lab s i ≠ -1) :
+    lab (pmisRound S s) i = lab s i := by
+  rw [lab_pmisRound hi]
+  have h1 : i ∉ newCoarse S s := fun hm => h (mem_newCoarse.mp hm).2.1
+  have h2 : ¬ newF S s i = true := fun hf => h (newF_iff.mp hf).1
+  rw [if_neg h1, if_neg h2]
+
+theorem pmisRound_keeps_coarse {i : Nat} (hi : i < S.length) (h : lab s i = 1) :
+    lab (pmisRound S s) i = 1 := by
+  rw [pmisRound_keeps hi (by rw [h]; decide), h]
+
+theorem pmisRound_keeps_fine {i : Nat} (hi : i < S.length) (h : lab s i = 0) :
+    lab (pmisRound S s) i = 0 := by
+  rw [pmisRound_keeps hi (by rw [h]; decide), h]
+
+/-- a vertex that is unassigned after the round was unassigned before, was not touched, and keeps
+    its weight -/
+theorem pmisRound_unassigned {i : Nat} (hi : i < S.length) (h : lab (pmisRound S s) i = -1) :
+    lab s i = -1 ∧ i ∉ newCoarse S s ∧ ¬ newF S s i = true ∧ wt (pmisRound S s) i = wt s i := by
+  rw [lab_pmisRound hi] at h
+  by_cases h1 : i ∈ newCoarse S s
+  · rw [if_pos h1] at h; exact absurd h (by decide)
+  · rw [if_neg h1] at h
+    by_cases h2 : newF S s i = true
+    · rw [if_pos h2] at h; exact absurd h (by decide)
+    · rw [if_neg h2] at h
+      refine ⟨h, h1, h2, ?_⟩
+      rw [wt_pmisRound hi, if_neg (by rintro (h' | h') <;> contradiction)]
+
+/-- a new coarse point is labelled 1 -/
+theorem pmisRound_newCoarse {i : Nat} (h : i ∈ newCoarse S s) : lab (pmisRound S s) i = 1 := by
+  rw [lab_pmisRound (mem_newCoarse.mp h).1, if_pos h]
+
+/-- an unassigned, unselected vertex that depends on a new coarse point is labelled 0 -/
+theorem pmisRound_newFine {i : Nat} (hi : i < S.length) (h : newF S s i = true) :
+    lab (pmisRound S s) i = 0 := by
+  rw [lab_pmisRound hi, if_neg (newF_iff.mp h).2.1, if_pos h]
+
+/-- (1) labels stay in `{1, 0, -1}` -/
+theorem pmisRound_labelsOk (h : LabelsOk S s) : LabelsOk S (pmisRound S s) := by
+  intro i hi
+  rw [lab_pmisRound hi]
+  split
+  · exact Or.inl rfl
+  · split
+    · exact Or.inr (Or.inl rfl)
+    · exact h i hi
+
+/-- (3) the weight invariant is preserved -/
+theorem pmisRound_winv (h01 : (0 : W) < 1) (h : WInv S s) : WInv S (pmisRound S s) := by
+  intro i hi
+  refine ⟨fun _ => ?_, fun hu => ?_⟩
+  · rw [wt_pmisRound hi]
+    split
+    · exact h01
+    · rename_i hn
+      have h1 : i ∉ newCoarse S s := fun hm => hn (Or.inl hm)
+      have h2 : ¬ newF S s i = true := fun hm => hn (Or.inr hm)
+      by_cases hl : lab s i = -1
+      · exfalso
+        have := lab_pmisRound (S := S) (s := s) hi
+        rw [if_neg h1, if_neg h2] at this
+        exact ‹lab (pmisRound S s) i ≠ -1› (this.trans hl)
+      · exact (h i hi).1 hl
+  · obtain ⟨hl, _, _, hw⟩ := pmisRound_unassigned hi hu
+    rw [hw]; exact (h i hi).2 hl
+
+/-- (3, strong form) assigned vertices get weight exactly 0 once the strong invariant holds -/
+theorem pmisRound_winv0 (h : WInv0 S s) : WInv0 S (pmisRound S s) := by
+  intro i hi
+  refine ⟨fun hne => ?_, fun hu => ?_⟩
+  · rw [wt_pmisRound hi]
+    split
+    · rfl
+    · rename_i hn
+      have h1 : i ∉ newCoarse S s := fun hm => hn (Or.inl hm)
+      have h2 : ¬ newF S s i = true := fun hm => hn (Or.inr hm)
+      have := lab_pmisRound (S := S) (s := s) hi
+      rw [if_neg h1, if_neg h2] at this
+      exact (h i hi).1 (fun hl => hne (this.trans hl))
+  · obtain ⟨hl, _, _, hw⟩ := pmisRound_unassigned hi hu
+    rw [hw]; exact (h i hi).2 hl
+
+theorem pmisRound_inv (h01 : (0 : W) < 1) (h : Inv S s) : Inv S (pmisRound S s) :=
+  ⟨pmisRound_shape S s, pmisRound_labelsOk h.2.1, pmisRound_winv h01 h.2.2⟩
+
+/-- (4) distinctness of the weights of unassigned vertices is preserved -/
+theorem pmisRound_distinct (h : Distinct S s) : Distinct S (pmisRound S s) := by
+  intro i j hi hj hli hlj hw
+  obtain ⟨hi1, _, _, hi2⟩ := pmisRound_unassigned hi hli
+  obtain ⟨hj1, _, _, hj2⟩ := pmisRound_unassigned hj hlj
+  exact h i j hi hj hi1 hj1 (by rw [← hi2, ← hj2, hw])
+
+/-- an unassigned vertex whose weight is not exceeded anywhere is selected -/
+theorem newCoarse_mem_of_max {u : Nat} (hu : u < S.length) (hl : lab s u = -1)
+    (hmax : ∀ v, wt s v ≤ wt s u) : u ∈ newCoarse S s :=
+  mem_newCoarse.mpr ⟨hu, hl, fun v _ => not_lt.mpr (hmax v), fun v _ _ => not_lt.mpr (hmax v)⟩
+
+/-- (4/8) selection is never empty while something is unassigned, for any threshold `b` that
+    separates the weights of unassigned vertices from all other weights. Ties do not block:
+    a vertex is selected iff no neighbour has a strictly larger weight. -/
+theorem newCoarse_nonempty_thr (b : W)
+    (hlow : ∀ v, (v < S.length ∧ lab s v = -1) ∨ wt s v ≤ b)
+    (hhigh : ∀ u, u < S.length → lab s u = -1 → b ≤ wt s u)
+    (hex : ∃ i, i < S.length ∧ lab s i = -1) : newCoarse S s ≠ [] := by
+  obtain ⟨i0, hi0, hl0⟩ := hex
+  have hne : (List.range S.length).filter (fun i => lab s i == -1) ≠ [] :=
+    List.ne_nil_of_mem (List.mem_filter.mpr ⟨List.mem_range.mpr hi0, by simp [hl0]⟩)
+  obtain ⟨u, hu, hmax⟩ := exists_max_of_ne_nil (wt s) _ hne
+  have hu' := List.mem_filter.mp hu
+  have hun : u < S.length := List.mem_range.mp hu'.1
+  have hul : lab s u = -1 := by simpa using hu'.2
+  refine List.ne_nil_of_mem (newCoarse_mem_of_max hun hul fun v => ?_)
+  rcases hlow v with ⟨hv, hvl⟩ | hv
+  · exact hmax v (List.mem_filter.mpr ⟨List.mem_range.mpr hv, by simp [hvl]⟩)
+  · exact le_trans hv (hhigh u hun hul)
+
+/-- (4/8) `newCoarse_nonempty`: under the weight invariant, some vertex is selected whenever some
+    vertex is unassigned — no distinctness of weights is needed -/
+theorem newCoarse_nonempty (h01 : (0 : W) < 1) (hs : Shape S s) (hw : WInv S s)
+    (hex : ∃ i, i < S.length ∧ lab s i = -1) : newCoarse S s ≠ [] := by
+  refine newCoarse_nonempty_thr 1 (fun v => ?_) (fun u hu hl => (hw u hu).2 hl) hex
+  by_cases hv : v < S.length
+  · by_cases hl : lab s v = -1
+    · exact Or.inl ⟨hv, hl⟩
+    · exact Or.inr (le_of_lt ((hw v hv).1 hl))
+  · exact Or.inr (by rw [wt_out_of_range hs (Nat.le_of_not_lt hv)]; exact le_of_lt h01)
+
+/-- the number of unassigned vertices never grows -/
+theorem pmisRound_count_mono (S : Graph) (s : St W) :
+    unassignedCount S (pmisRound S s) ≤ unassignedCount S s := by
+  unfold unassignedCount
+  refine countP_le_of_imp _ _ _ fun x hx hp => ?_
+  have := (pmisRound_unassigned (List.mem_range.mp hx) (by simpa using hp)).1
+  simp [this]
+
+/-- (4) **progress**: while a vertex is unassigned, a round assigns at least one vertex -/
+theorem pmisRound_progress (h01 : (0 : W) < 1) (hs : Shape S s) (hw : WInv S s)
+    (hex : ∃ i, i < S.length ∧ lab s i = -1) :
+    newCoarse S s ≠ [] ∧ unassignedCount S (pmisRound S s) < unassignedCount S s := by
+  have hne := newCoarse_nonempty h01 hs hw hex
+  refine ⟨hne, ?_⟩
+  obtain ⟨u, hu⟩ := List.exists_mem_of_ne_nil _ hne
+  have hu' := mem_newCoarse.mp hu
+  unfold unassignedCount
+  refine countP_lt_countP _ _ _ (fun x hx hp => ?_) ⟨u, List.mem_range.mpr hu'.1, ?_, ?_⟩
+  · have := (pmisRound_unassigned (List.mem_range.mp hx) (by simpa using hp)).1
+    simp [this]
+  · simp [hu'.2.1]
+  · simp [pmisRound_newCoarse hu]
+
+/-- each round lowers the count of unassigned vertices by at least one (down to 0) -/
+theorem pmisRound_count_le (h01 : (0 : W) < 1) (h : Inv S s) :
+    unassignedCount S (pmisRound S s) ≤ unassignedCount S s - 1 := by
+  by_cases hex : ∃ i, i < S.length ∧ lab s i = -1
+  · have := (pmisRound_progress h01 h.1 h.2.2 hex).2
+    omega
+  · have h0 : unassignedCount S s = 0 :=
+      unassignedCount_eq_zero.mpr fun i hi hl => hex ⟨i, hi, hl⟩
+    have := pmisRound_count_mono S s
+    omega
+
+end PmisRound
+
+/-! ## 9. Specification predicates unfolded -/
+section Spec
+
+theorem getD_default_irrel {α : Type} (l : List α) (i : Nat) (d d' : α) (h : i < l.length) :
+    l.getD i d = l.getD i d' := by
+  simp [List.getD_eq_getElem?_getD, h]
+
+theorem total_iff (S : Graph) (labels : List Int) :
+    total S labels = true ↔ labels.length = S.length ∧ ∀ i, i < S.length →
+      labels.getD i 9 = 1 ∨ labels.getD i 9 = 0 ∨ (labels.getD i 9 = -2 ∧ S.getD i [] = []) := by
+  simp [total, List.all_eq_true, List.isEmpty_iff, or_assoc]
+
+theorem fineHasCoarse_iff (S : Graph) (labels : List Int) :
+    fineHasCoarse S labels = true ↔ ∀ i, i < S.length → labels.getD i 9 = 0 →
+      S.getD i [] = [] ∨ ∃ j ∈ S.getD i [], labels.getD j 9 = 1 := by
+  simp only [fineHasCoarse, List.all_eq_true, List.mem_range, Bool.or_eq_true, bne_iff_ne, ne_eq,
+    List.isEmpty_iff, List.any_eq_true, beq_iff_eq]
+  constructor
+  · intro h i hi h0
+    rcases h i hi with (h' | h') | h'
+    · exact absurd h0 h'
+    · exact Or.inl h'
+    · exact Or.inr h'
+  · intro h i hi
+    by_cases h0 : labels.getD i 9 = 0
+    · rcases h i hi h0 with h' | h'
+      · exact Or.inl (Or.inr h')
+      · exact Or.inr h'
+    · exact Or.inl (Or.inl h0)
+
+theorem hasUsableEdge_iff (S : Graph) :
+    hasUsableEdge S = true ↔ ∃ i, i < S.length ∧ ∃ j ∈ S.getD i [], S.getD j [] ≠ [] := by
+  simp [hasUsableEdge, List.any_eq_true]
+
+/-- a list of labels that are all 1 or 0 (read with default 0) is `total` -/
+theorem total_of_all_assigned (S : Graph) (labels : List Int) (hlen : labels.length = S.length)
+    (h : ∀ i, i < S.length → labels.getD i 0 = 1 ∨ labels.getD i 0 = 0) : total S labels = true := by
+  rw [total_iff]
+  refine ⟨hlen, fun i hi => ?_⟩
+  rw [getD_default_irrel labels i 9 0 (by rw [hlen]; exact hi)]
+  rcases h i hi with h | h
+  · exact Or.inl h
+  · exact Or.inr (Or.inl h)
+
+end Spec
+
+/-! ## 5. PMIS terminates and labels every vertex -/
+section Pmis
+variable {W : Type} [LinearOrder W] [Zero W] [One W]
+variable {S : Graph}
+
+theorem pmis_iter_inv (h01 : (0 : W) < 1) (k : Nat) (s : St W) (h : Inv S s) :
+    Inv S (iterN (pmisRound S) k s) :=
+  iterN_inv (pmisRound S) (Inv S) (fun _ ha => pmisRound_inv h01 ha) k s h
+
+theorem pmis_iter_distinct (k : Nat) (s : St W) (h : Distinct S s) :
+    Distinct S (iterN (pmisRound S) k s) :=
+  iterN_inv (pmisRound S) (Distinct S) (fun _ ha => pmisRound_distinct ha) k s h
+
+theorem pmis_iter_shape (k : Nat) (s : St W) (h : Shape S s) :
+    Shape S (iterN (pmisRound S) k s) :=
+  iterN_inv (pmisRound S) (Shape S) (fun a _ => pmisRound_shape S a) k s h
+
+/-- assigned vertices keep their label through any number of rounds -/
+theorem pmis_iter_keeps {i : Nat} (hi : i < S.length) :
+    ∀ (k : Nat) (s : St W), lab s i ≠ -1 → lab (iterN (pmisRound S) k s) i = lab s i
+  | 0, _, _ => rfl
+  | k + 1, s, h => by
+    show lab (iterN (pmisRound S) k (pmisRound S s)) i = lab s i
+    have h1 := pmisRound_keeps hi h
+    rw [pmis_iter_keeps hi k (pmisRound S s) (by rw [h1]; exact h), h1]
+
+theorem pmis_iter_keeps_le {i : Nat} (hi : i < S.length) {k1 k2 : Nat} (hk : k1 ≤ k2) (s : St W)
+    (h : lab (iterN (pmisRound S) k1 s) i ≠ -1) :
+    lab (iterN (pmisRound S) k2 s) i = lab (iterN (pmisRound S) k1 s) i := by
+  obtain ⟨d, rfl⟩ := Nat.exists_eq_add_of_le hk
+  rw [iterN_add]
+  exact pmis_iter_keeps hi d _ h
+
+/-- after `k` rounds at most `count - k` vertices are unassigned -/
+theorem pmis_iter_count (h01 : (0 : W) < 1) :
+    ∀ (k : Nat) (s : St W), Inv S s →
+      unassignedCount S (iterN (pmisRound S) k s) ≤ unassignedCount S s - k
+  | 0, _, _ => Nat.le_refl _
+  | k + 1, s, h => by
+    have ih := pmis_iter_count h01 k (pmisRound S s) (pmisRound_inv h01 h)
+    have h1 := pmisRound_count_le h01 h
+    show unassignedCount S (iterN (pmisRound S) k (pmisRound S s)) ≤ _
+    omega
+
+/-- (5) from any state satisfying the invariants, `S.length` rounds assign every vertex -/
+theorem pmis_iter_total (h01 : (0 : W) < 1) (s : St W) (h : Inv S s) :
+    ∀ i, i < S.length → lab (iterN (pmisRound S) S.length s) i = 1 ∨
+      lab (iterN (pmisRound S) S.length s) i = 0 := by
+  intro i hi
+  have hc := pmis_iter_count h01 S.length s h
+  have hle := unassignedCount_le S s
+  have h0 : unassignedCount S (iterN (pmisRound S) S.length s) = 0 := by omega
+  have hne := unassignedCount_eq_zero.mp h0 i hi
+  rcases (pmis_iter_inv h01 S.length s h).2.1 i hi with h1 | h1 | h1
+  · exact Or.inl h1
+  · exact Or.inr h1
+  · exact absurd h1 hne
+
+variable [Add W]
+
+/-- initial weight of vertex `i`: random part plus the number of vertices that depend on `i` -/
+def w0 (S : Graph) (rand : List W) (natCast : Nat → W) (i : Nat) : W :=
+  rand.getD i 0 + natCast (inDegree S i)
+
+/-- the state `pmis` starts from -/
+def pmisInit (S : Graph) (rand : List W) (natCast : Nat → W) : St W :=
+  { labels := ((List.range S.length).map (w0 S rand natCast)).map fun w => if w < 1 then 0 else -1,
+    weights := (List.range S.length).map (w0 S rand natCast) }
+
+variable (rand : List W) (natCast : Nat → W)
+
+theorem pmis_eq (S : Graph) :
+    pmis S rand natCast = (iterN (pmisRound S) S.length (pmisInit S rand natCast)).labels := rfl
+
+theorem lab_pmisInit {i : Nat} (hi : i < S.length) :
+    lab (pmisInit S rand natCast) i = if w0 S rand natCast i < 1 then 0 else -1 := by
+  unfold lab pmisInit
+  simp only [List.map_map]
+  rw [getD_map_range _ _ _ _ hi]
+  rfl
+
+theorem wt_pmisInit {i : Nat} (hi : i < S.length) :
+    wt (pmisInit S rand natCast) i = w0 S rand natCast i := by
+  unfold wt pmisInit
+  simp only
+  rw [getD_map_range _ _ _ _ hi]
+
+/-- (3) the initial state satisfies the invariants. No assumption on `rand`/`natCast` is needed:
+    the initial labels are *defined* by comparing the weight with 1. (Initially fine vertices keep
+    their weight `rand i < 1`, which is why `WInv` says `< 1` and not `= 0`.) -/
+theorem pmisInit_inv (S : Graph) : Inv S (pmisInit S rand natCast) := by
+  refine ⟨⟨by simp [pmisInit], by simp [pmisInit]⟩, fun i hi => ?_, fun i hi => ?_⟩
+  · rw [lab_pmisInit rand natCast hi]
+    split
+    · exact Or.inr (Or.inl rfl)
+    · exact Or.inr (Or.inr rfl)
+  · rw [lab_pmisInit rand natCast hi, wt_pmisInit rand natCast hi]
+    by_cases h : w0 S rand natCast i < 1
+    · rw [if_pos h]; exact ⟨fun _ => h, fun h' => absurd h' (by decide)⟩
+    · rw [if_neg h]; exact ⟨fun h' => absurd rfl h', fun _ => not_lt.mp h⟩
+
+/-- pairwise distinct initial weights give `Distinct` for the initial state -/
+theorem pmisInit_distinct
+    (hdist : ∀ i j, i < S.length → j < S.length → w0 S rand natCast i = w0 S rand natCast j → i = j) :
+    Distinct S (pmisInit S rand natCast) := by
+  intro i j hi hj _ _ hw
+  rw [wt_pmisInit rand natCast hi, wt_pmisInit rand natCast hj] at hw
+  exact hdist i j hi hj hw
+
+theorem inDegree_eq_zero_iff (S : Graph) (i : Nat) :
+    inDegree S i = 0 ↔ ∀ r, r < S.length → i ∉ S.getD r [] := by
+  unfold inDegree
+  rw [List.length_eq_zero_iff, List.eq_nil_iff_forall_not_mem]
+  constructor
+  · intro h r hr hm; exact h r (mem_dependents.mpr ⟨hr, hm⟩)
+  · intro h r hm; exact h r (mem_dependents.mp hm).1 (mem_dependents.mp hm).2
+
+/-- with random parts in `[0,1)` and `natCast` behaving like the cast of naturals, the initial
+    weight is below 1 exactly for the vertices nobody depends on -/
+theorem w0_lt_one_iff (hrand : ∀ i, 0 ≤ rand.getD i 0 ∧ rand.getD i 0 < 1)
+    (hcast0 : natCast 0 = 0) (hcast1 : ∀ k, 1 ≤ natCast (k + 1))
+    (hadd0 : ∀ a : W, a + 0 = a) (hadd_le : ∀ a b : W, 0 ≤ a → 1 ≤ b → 1 ≤ a + b) (i : Nat) :
+    w0 S rand natCast i < 1 ↔ inDegree S i = 0 := by
+  unfold w0
+  cases hk : inDegree S i with
+  | zero => rw [hcast0, hadd0]; exact ⟨fun _ => rfl, fun _ => (hrand i).2⟩
+  | succ k =>
+    refine ⟨fun h => ?_, fun h => by cases h⟩
+    exact absurd h (not_lt.mpr (hadd_le _ _ (hrand i).1 (hcast1 k)))
+
+theorem pmis_length (S : Graph) : (pmis S rand natCast).length = S.length := by
+  rw [pmis_eq]
+  exact (pmis_iter_shape _ _ (pmisInit_inv rand natCast S).1).1
+
+theorem pmis_getD (S : Graph) (i : Nat) :
+    (pmis S rand natCast).getD i 0 = lab (iterN (pmisRound S) S.length (pmisInit S rand natCast)) i :=
+  rfl
+
+/-- (5) **termination/totality**: after `S.length` rounds every vertex is coarse or fine. Only
+    `0 < 1` is needed — ties between weights do not block progress (`newCoarse_nonempty`). -/
+theorem pmis_total (h01 : (0 : W) < 1) (S : Graph) :
+    (pmis S rand natCast).length = S.length ∧
+    (∀ i, i < S.length → (pmis S rand natCast).getD i 0 = 1 ∨ (pmis S rand natCast).getD i 0 = 0) ∧
+    total S (pmis S rand natCast) = true := by
+  have h := fun i hi => pmis_iter_total h01 _ (pmisInit_inv rand natCast S) i hi
+  exact ⟨pmis_length rand natCast S, h,
+    total_of_all_assigned S _ (pmis_length rand natCast S) h⟩
+
+/-! ## 6. Which coarse points can be adjacent -/
+
+/-- with distinct weights two different adjacent vertices are never selected in the same round -/
+theorem newCoarse_not_adjacent {s : St W} (hd : Distinct S s) {i j : Nat} (hi : i < S.length)
+    (hij : i ≠ j) (hadj : j ∈ S.getD i []) (hci : i ∈ newCoarse S s) (hcj : j ∈ newCoarse S s) :
+    False := by
+  have hi' := mem_newCoarse.mp hci
+  have hj' := mem_newCoarse.mp hcj
+  have h1 : wt s j ≤ wt s i := not_lt.mp (hi'.2.2.1 j hadj)
+  have h2 : wt s i ≤ wt s j := not_lt.mp (hj'.2.2.2 i hi hadj)
+  exact hij (hd i j hi hj'.1 hi'.2.1 hj'.2.1 (le_antisymm h2 h1))
+
+/-- invariant behind (6): every vertex that depends on a coarse point is assigned -/
+def CoarseCovers (S : Graph) (s : St W) : Prop :=
+  ∀ i c, i < S.length → c ∈ S.getD i [] → lab s c = 1 → lab s i ≠ -1
+
+theorem pmisRound_coarseCovers {s : St W} (h : CoarseCovers S s) :
+    CoarseCovers S (pmisRound S s) := by
+  intro i c hi hc hlc hli
+  obtain ⟨hl, hnc, hnf, _⟩ := pmisRound_unassigned hi hli
+  have hcn : c < S.length := by
+    by_contra hge
+    rw [lab_out_of_range (pmisRound_shape S s) (Nat.le_of_not_lt hge)] at hlc
+    exact absurd hlc (by decide)
+  by_cases hcc : c ∈ newCoarse S s
+  · exact hnf (newF_iff.mpr ⟨hl, hnc, c, hc, hcc⟩)
+  · by_cases hlc' : lab s c = -1
+    · rw [lab_pmisRound hcn, if_neg hcc] at hlc
+      split at hlc
+      · exact absurd hlc (by decide)
+      · rw [hlc'] at hlc; exact absurd hlc (by decide)
+    · rw [pmisRound_keeps hcn hlc'] at hlc
+      exact h i c hi hc hlc hl
+
+/-- (6, trace form) if `i` depends on `j`, both different and both coarse after `m` rounds from a
+    state with distinct weights in which `j` is unassigned, then at some earlier round `i` was
+    already coarse while `j` was still unassigned: the *dependent* is always selected first. -/
+theorem pmis_coarse_pair_aux {i j : Nat} (hi : i < S.length) (hj : j < S.length) (hij : i ≠ j)
+    (hadj : j ∈ S.getD i []) :
+    ∀ (m : Nat) (s : St W), Distinct S s → lab s j = -1 →
+      lab (iterN (pmisRound S) m s) i = 1 → lab (iterN (pmisRound S) m s) j = 1 →
+      ∃ k, k < m ∧ lab (iterN (pmisRound S) k s) i = 1 ∧ lab (iterN (pmisRound S) k s) j = -1
+  | 0, s, _, hlj, _, hfj => by
+    have : lab s j = 1 := hfj
+    rw [hlj] at this; exact absurd this (by decide)
+  | m + 1, s, hd, hlj, hfi, hfj => by
+    have hfi' : lab (iterN (pmisRound S) m (pmisRound S s)) i = 1 := hfi
+    have hfj' : lab (iterN (pmisRound S) m (pmisRound S s)) j = 1 := hfj
+    by_cases hli : lab s i = -1
+    · by_cases hj1 : lab (pmisRound S s) j = -1
+      · obtain ⟨k, hk, h1, h2⟩ :=
+          pmis_coarse_pair_aux hi hj hij hadj m (pmisRound S s) (pmisRound_distinct hd) hj1 hfi' hfj'
+        exact ⟨k + 1, Nat.succ_lt_succ hk, h1, h2⟩
+      · exfalso
+        -- `j` is assigned by this round and ends coarse, so it is a new coarse point
+        rw [pmis_iter_keeps hj m _ hj1] at hfj'
+        have hjc : j ∈ newCoarse S s := by
+          by_contra hnc
+          rw [lab_pmisRound hj, if_neg hnc] at hfj'
+          split at hfj'
+          · exact absurd hfj' (by decide)
+          · rw [hlj] at hfj'; exact absurd hfj' (by decide)
+        have hic : i ∉ newCoarse S s := fun hic => newCoarse_not_adjacent hd hi hij hadj hic hjc
+        have hnf : newF S s i = true := newF_iff.mpr ⟨hli, hic, j, hadj, hjc⟩
+        have h0 := pmisRound_newFine hi hnf
+        rw [pmis_iter_keeps hi m _ (by rw [h0]; decide), h0] at hfi'
+        exact absurd hfi' (by decide)
+    · have := pmis_iter_keeps hi (m + 1) s hli
+      rw [this] at hfi
+      exact ⟨0, Nat.succ_pos m, hfi, hlj⟩
+
+/-- (6) **what holds for PMIS as modelled**: if `i` depends on `j` (`j ∈ S[i]`), `i ≠ j`, and both
+    are coarse in the result, then `i` was selected strictly before `j`: at some round `k`, `i` is
+    coarse and `j` still unassigned. (Only the dependents of a new coarse point become fine, so a
+    vertex `j` that a coarse point depends on may be selected later; see `example` below.) -/
+theorem pmis_coarse_pair
+    (hdist : ∀ i j, i < S.length → j < S.length → w0 S rand natCast i = w0 S rand natCast j → i = j)
+    {i j : Nat} (hi : i < S.length) (hij : i ≠ j) (hadj : j ∈ S.getD i [])
+    (hci : (pmis S rand natCast).getD i 0 = 1) (hcj : (pmis S rand natCast).getD j 0 = 1) :
+    ∃ k, k < S.length ∧ lab (iterN (pmisRound S) k (pmisInit S rand natCast)) i = 1 ∧
+      lab (iterN (pmisRound S) k (pmisInit S rand natCast)) j = -1 := by
+  rw [pmis_getD] at hci hcj
+  have hj : j < S.length := by
+    by_contra hge
+    rw [lab_out_of_range (pmis_iter_shape _ _ (pmisInit_inv rand natCast S).1)
+      (Nat.le_of_not_lt hge)] at hcj
+    exact absurd hcj (by decide)
+  have hlj : lab (pmisInit S rand natCast) j = -1 := by
+    by_contra hne
+    rw [pmis_iter_keeps hj _ _ hne, lab_pmisInit rand natCast hj] at hcj
+    split at hcj <;> exact absurd hcj (by decide)
+  exact pmis_coarse_pair_aux hi hj hij hadj S.length _ (pmisInit_distinct rand natCast hdist) hlj
+    hci hcj
+
+/-- (6) **independence on symmetric edges**: two different vertices that depend on each other are
+    never both coarse (distinct initial weights). On a symmetric strength graph the coarse points
+    therefore form an independent set. -/
+theorem pmis_independent
+    (hdist : ∀ i j, i < S.length → j < S.length → w0 S rand natCast i = w0 S rand natCast j → i = j)
+    {i j : Nat} (hi : i < S.length) (hj : j < S.length) (hij : i ≠ j)
+    (hadj : j ∈ S.getD i []) (hadj' : i ∈ S.getD j []) :
+    ¬ ((pmis S rand natCast).getD i 0 = 1 ∧ (pmis S rand natCast).getD j 0 = 1) := by
+  rintro ⟨hci, hcj⟩
+  obtain ⟨k1, _, h1i, h1j⟩ := pmis_coarse_pair rand natCast hdist hi hij hadj hci hcj
+  obtain ⟨k2, _, h2j, h2i⟩ := pmis_coarse_pair rand natCast hdist hj (Ne.symm hij) hadj' hcj hci
+  rcases Nat.le_total k1 k2 with hk | hk
+  · have := pmis_iter_keeps_le hi hk (pmisInit S rand natCast) (by rw [h1i]; decide)
+    rw [h1i, h2i] at this; exact absurd this (by decide)
+  · have := pmis_iter_keeps_le hj hk (pmisInit S rand natCast) (by rw [h2j]; decide)
+    rw [h2j, h1j] at this; exact absurd this (by decide)
+
+/-- (6) in the result every vertex that depends on a coarse point is itself assigned — the
+    invariant `CoarseCovers` holds along the whole run (no distinctness needed) -/
+theorem pmis_coarseCovers (k : Nat) :
+    CoarseCovers S (iterN (pmisRound S) k (pmisInit S rand natCast)) := by
+  have h0 : Shape S (pmisInit S rand natCast) ∧ CoarseCovers S (pmisInit S rand natCast) := by
+    refine ⟨(pmisInit_inv rand natCast S).1, fun i c hi hc hlc => ?_⟩
+    exfalso
+    by_cases hcn : c < S.length
+    · rw [lab_pmisInit rand natCast hcn] at hlc
+      split at hlc <;> exact absurd hlc (by decide)
+    · rw [lab_out_of_range (pmisInit_inv rand natCast S).1 (Nat.le_of_not_lt hcn)] at hlc
+      exact absurd hlc (by decide)
+  exact (iterN_inv (pmisRound S) (fun s => Shape S s ∧ CoarseCovers S s)
+    (fun a ha => ⟨pmisRound_shape S a, pmisRound_coarseCovers ha.2⟩) k _ h0).2
+
+/-! ## 7. Why a vertex is fine -/
+
+/-- one round preserves "every fine vertex satisfies `P` or depends on a coarse point" -/
+theorem pmisRound_fineReason (P : Nat → Prop) {s : St W} (hs : Shape S s)
+    (h : ∀ i, i < S.length → lab s i = 0 → P i ∨ ∃ c ∈ S.getD i [], lab s c = 1) :
+    ∀ i, i < S.length → lab (pmisRound S s) i = 0 →
+      P i ∨ ∃ c ∈ S.getD i [], lab (pmisRound S s) c = 1 := by
+  intro i hi hl
+  by_cases h0 : lab s i = 0
+  · rcases h i hi h0 with hp | ⟨c, hc, hlc⟩
+    · exact Or.inl hp
+    · have hcn : c < S.length := by
+        by_contra hge
+        rw [lab_out_of_range hs (Nat.le_of_not_lt hge)] at hlc
+        exact absurd hlc (by decide)
+      exact Or.inr ⟨c, hc, pmisRound_keeps_coarse hcn hlc⟩
+  · rw [lab_pmisRound hi] at hl
+    split at hl
+    · exact absurd hl (by decide)
+    · split at hl
+      · rename_i hf
+        obtain ⟨_, _, c, hc, hcc⟩ := newF_iff.mp hf
+        exact Or.inr ⟨c, hc, pmisRound_newCoarse hcc⟩
+      · exact absurd hl h0
+
+/-- (7) every fine vertex of the result either had initial weight below 1 (it was made fine
+    before the first round) or depends on a coarse vertex -/
+theorem pmis_fine_reason (S : Graph) {i : Nat} (hi : i < S.length)
+    (hf : (pmis S rand natCast).getD i 0 = 0) :
+    w0 S rand natCast i < 1 ∨ ∃ c ∈ S.getD i [], (pmis S rand natCast).getD c 0 = 1 := by
+  have h0 : Shape S (pmisInit S rand natCast) ∧ ∀ i, i < S.length →
+      lab (pmisInit S rand natCast) i = 0 →
+        w0 S rand natCast i < 1 ∨ ∃ c ∈ S.getD i [], lab (pmisInit S rand natCast) c = 1 := by
+    refine ⟨(pmisInit_inv rand natCast S).1, fun i hi hl => ?_⟩
+    rw [lab_pmisInit rand natCast hi] at hl
+    split at hl
+    · exact Or.inl ‹_›
+    · exact absurd hl (by decide)
+  exact (iterN_inv (pmisRound S)
+    (fun s => Shape S s ∧ ∀ i, i < S.length → lab s i = 0 →
+      w0 S rand natCast i < 1 ∨ ∃ c ∈ S.getD i [], lab s c = 1)
+    (fun a ha => ⟨pmisRound_shape S a, pmisRound_fineReason _ ha.1 ha.2⟩) S.length _ h0).2 i hi hf
+
+/-- (7) with random parts in `[0,1)`: a fine vertex is one nobody depends on, or it depends on a
+    coarse vertex -/
+theorem pmis_fine_reason' (hrand : ∀ i, 0 ≤ rand.getD i 0 ∧ rand.getD i 0 < 1)
+    (hcast0 : natCast 0 = 0) (hcast1 : ∀ k, 1 ≤ natCast (k + 1))
+    (hadd0 : ∀ a : W, a + 0 = a) (hadd_le : ∀ a b : W, 0 ≤ a → 1 ≤ b → 1 ≤ a + b)
+    (S : Graph) {i : Nat} (hi : i < S.length) (hf : (pmis S rand natCast).getD i 0 = 0) :
+    (∀ r, r < S.length → i ∉ S.getD r []) ∨
+      ∃ c ∈ S.getD i [], (pmis S rand natCast).getD c 0 = 1 := by
+  rcases pmis_fine_reason rand natCast S hi hf with h | h
+  · exact Or.inl ((inDegree_eq_zero_iff S i).mp
+      ((w0_lt_one_iff rand natCast hrand hcast0 hcast1 hadd0 hadd_le i).mp h))
+  · exact Or.inr h
+
+end Pmis
+
+/-! ## 8. CLJP -/
+section Cljp
+variable {W : Type} [LinearOrder W] [Zero W] [One W] [Sub W]
+variable {S : Graph}
+
+/-- (8) a CLJP round produces one label and one weight per vertex -/
+theorem cljpRound_shape' (S : Graph) (cs : CSt W) : Shape S (cljpRound S cs).st :=
+  cljpRound_length S cs
+
+/-- (8) an assigned vertex keeps its label -/
+theorem cljpRound_keeps {i : Nat} (hi : i < S.length) (cs : CSt W) (h : lab cs.st i ≠ -1) :
+    lab (cljpRound S cs).st i = lab cs.st i := by
+  obtain ⟨w1, hp⟩ := cljpRound_pointwise S cs
+  rw [(hp i hi).1, if_neg (fun hm => h (mem_newCoarse.mp hm).2.1), if_neg (fun hh => h hh.1)]
+
+theorem cljpRound_newCoarse {i : Nat} (cs : CSt W) (h : i ∈ newCoarse S cs.st) :
+    lab (cljpRound S cs).st i = 1 := by
+  obtain ⟨w1, hp⟩ := cljpRound_pointwise S cs
+  rw [(hp i (mem_newCoarse.mp h).1).1, if_pos h]
+
+/-- a vertex unassigned after the round was unassigned before and was not selected -/
+theorem cljpRound_unassigned {i : Nat} (hi : i < S.length) (cs : CSt W)
+    (h : lab (cljpRound S cs).st i = -1) : lab cs.st i = -1 ∧ i ∉ newCoarse S cs.st := by
+  by_cases hl : lab cs.st i = -1
+  · refine ⟨hl, fun hm => ?_⟩
+    rw [cljpRound_newCoarse cs hm] at h; exact absurd h (by decide)
+  · rw [cljpRound_keeps hi cs hl] at h; exact absurd h hl
+
+/-- (8) labels stay in `{1, 0, -1}` -/
+theorem cljpRound_labelsOk (cs : CSt W) (h : LabelsOk S cs.st) : LabelsOk S (cljpRound S cs).st := by
+  obtain ⟨w1, hp⟩ := cljpRound_pointwise S cs
+  intro i hi
+  rw [(hp i hi).1]
+  split
+  · exact Or.inl rfl
+  · split
+    · exact Or.inr (Or.inl rfl)
+    · exact h i hi
+
+/-- (8) after *any* CLJP round the strong weight invariant holds: assigned vertices have weight 0,
+    unassigned ones weight at least 1 (`update_states` makes the others fine) -/
+theorem cljpRound_winv0 (S : Graph) (cs : CSt W) : WInv0 S (cljpRound S cs).st := by
+  obtain ⟨w1, hp⟩ := cljpRound_pointwise S cs
+  intro i hi
+  refine ⟨fun hne => ?_, fun hu => ?_⟩
+  · rw [(hp i hi).2, if_pos hne]
+  · rw [(hp i hi).2, if_neg (fun hne => hne hu)]
+    have h1 := (hp i hi).1
+    rw [hu] at h1
+    by_cases hlt : w1.getD i 0 < 1
+    · exfalso
+      split at h1
+      · exact absurd h1 (by decide)
+      · by_cases hl : lab cs.st i = -1
+        · rw [if_pos ⟨hl, hlt⟩] at h1; exact absurd h1 (by decide)
+        · rw [if_neg (fun hh => hl hh.1)] at h1; exact hl h1.symm
+    · exact not_lt.mp hlt
+
+theorem cljpRound_count_mono (S : Graph) (cs : CSt W) :
+    unassignedCount S (cljpRound S cs).st ≤ unassignedCount S cs.st := by
+  unfold unassignedCount
+  refine countP_le_of_imp _ _ _ fun x hx hp => ?_
+  have := (cljpRound_unassigned (List.mem_range.mp hx) cs (by simpa using hp)).1
+  simp [this]
+
+/-- (8) **progress**: while a vertex is unassigned, a CLJP round assigns at least one vertex -/
+theorem cljpRound_progress (h01 : (0 : W) < 1) (cs : CSt W) (hs : Shape S cs.st)
+    (hw : WInv S cs.st) (hex : ∃ i, i < S.length ∧ lab cs.st i = -1) :
+    newCoarse S cs.st ≠ [] ∧ unassignedCount S (cljpRound S cs).st < unassignedCount S cs.st := by
+  have hne := newCoarse_nonempty h01 hs hw hex
+  refine ⟨hne, ?_⟩
+  obtain ⟨u, hu⟩ := List.exists_mem_of_ne_nil _ hne
+  have hu' := mem_newCoarse.mp hu
+  unfold unassignedCount
+  refine countP_lt_countP _ _ _ (fun x hx hp => ?_) ⟨u, List.mem_range.mpr hu'.1, ?_, ?_⟩
+  · have := (cljpRound_unassigned (List.mem_range.mp hx) cs (by simpa using hp)).1
+    simp [this]
+  · simp [hu'.2.1]
+  · simp [cljpRound_newCoarse cs hu]
+
+/-- invariants of the CLJP state from the end of the first round on -/
+def CInv (S : Graph) (cs : CSt W) : Prop := Shape S cs.st ∧ LabelsOk S cs.st ∧ WInv0 S cs.st
+
+theorem cljpRound_cinv (cs : CSt W) (h : LabelsOk S cs.st) : CInv S (cljpRound S cs) :=
+  ⟨cljpRound_shape' S cs, cljpRound_labelsOk cs h, cljpRound_winv0 S cs⟩
+
+theorem cljpRound_count_le (h01 : (0 : W) < 1) (cs : CSt W) (h : CInv S cs) :
+    unassignedCount S (cljpRound S cs).st ≤ unassignedCount S cs.st - 1 := by
+  by_cases hex : ∃ i, i < S.length ∧ lab cs.st i = -1
+  · have := (cljpRound_progress h01 cs h.1 (h.2.2.toWInv h01) hex).2
+    omega
+  · have h0 : unassignedCount S cs.st = 0 :=
+      unassignedCount_eq_zero.mpr fun i hi hl => hex ⟨i, hi, hl⟩
+    have := cljpRound_count_mono S cs
+    omega
+
+theorem cljp_iter_cinv (k : Nat) (cs : CSt W) (h : CInv S cs) : CInv S (iterN (cljpRound S) k cs) :=
+  iterN_inv (cljpRound S) (CInv S) (fun a ha => cljpRound_cinv a ha.2.1) k cs h
+
+theorem cljp_iter_count (h01 : (0 : W) < 1) :
+    ∀ (k : Nat) (cs : CSt W), CInv S cs →
+      unassignedCount S (iterN (cljpRound S) k cs).st ≤ unassignedCount S cs.st - k
+  | 0, _, _ => Nat.le_refl _
+  | k + 1, cs, h => by
+    have ih := cljp_iter_count h01 k (cljpRound S cs) (cljpRound_cinv cs h.2.1)
+    have h1 := cljpRound_count_le h01 cs h
+    show unassignedCount S (iterN (cljpRound S) k (cljpRound S cs)).st ≤ _
+    omega
+
+/-- assigned vertices keep their label through any number of CLJP rounds -/
+theorem cljp_iter_keeps {i : Nat} (hi : i < S.length) :
+    ∀ (k : Nat) (cs : CSt W), lab cs.st i ≠ -1 → lab (iterN (cljpRound S) k cs).st i = lab cs.st i
+  | 0, _, _ => rfl
+  | k + 1, cs, h => by
+    show lab (iterN (cljpRound S) k (cljpRound S cs)).st i = lab cs.st i
+    have h1 := cljpRound_keeps hi cs h
+    rw [cljp_iter_keeps hi k (cljpRound S cs) (by rw [h1]; exact h), h1]
+
+variable [Add W] (rand : List W) (natCast : Nat → W)
+
+/-- the state `cljp` starts from: everything unassigned -/
+def cljpInit (S : Graph) (rand : List W) (natCast : Nat → W) : CSt W :=
+  { st := { labels := List.replicate S.length (-1),
+            weights := (List.range S.length).map fun i => rand.getD i 0 + natCast (inDegree S i) },
+    cleared := [] }
+
+theorem cljp_eq (S : Graph) : cljp S rand natCast =
+    (iterN (cljpRound S) S.length (cljpRound S (cljpInit S rand natCast))).st.labels := rfl
+
+theorem cljpInit_labelsOk (S : Graph) : LabelsOk S (cljpInit S rand natCast).st := by
+  intro i hi
+  refine Or.inr (Or.inr ?_)
+  unfold lab cljpInit
+  simp [List.getD_eq_getElem?_getD, hi]
+
+/-- (8) **CLJP terminates and labels every vertex**: the first round establishes the strong weight
+    invariant whatever the initial weights are (vertices of weight below 1 become fine), and each
+    of the following `S.length` rounds assigns at least one vertex. Only `0 < 1` is needed. -/
+theorem cljp_total (h01 : (0 : W) < 1) (S : Graph) :
+    (cljp S rand natCast).length = S.length ∧
+    (∀ i, i < S.length → (cljp S rand natCast).getD i 0 = 1 ∨ (cljp S rand natCast).getD i 0 = 0) ∧
+    total S (cljp S rand natCast) = true := by
+  have h1 : CInv S (cljpRound S (cljpInit S rand natCast)) :=
+    cljpRound_cinv _ (cljpInit_labelsOk rand natCast S)
+  have hn := cljp_iter_cinv S.length _ h1
+  have hlen : (cljp S rand natCast).length = S.length := by rw [cljp_eq]; exact hn.1.1
+  have hall : ∀ i, i < S.length →
+      (cljp S rand natCast).getD i 0 = 1 ∨ (cljp S rand natCast).getD i 0 = 0 := by
+    intro i hi
+    have hc := cljp_iter_count h01 S.length _ h1
+    have hle := unassignedCount_le S (cljpRound S (cljpInit S rand natCast)).st
+    have h0 : unassignedCount S
+        (iterN (cljpRound S) S.length (cljpRound S (cljpInit S rand natCast))).st = 0 := by omega
+    have hne := unassignedCount_eq_zero.mp h0 i hi
+    rcases hn.2.1 i hi with h | h | h
+    · exact Or.inl h
+    · exact Or.inr h
+    · exact absurd h hne
+  exact ⟨hlen, hall, total_of_all_assigned S _ hlen hall⟩
+
+end Cljp
+
+/-! ## Concrete instances (`ℚ` weights, checked by kernel evaluation) -/
+section Examples
+
+/-- directed 3-cycle: 0 depends on 1, 1 on 2, 2 on 0; every in-degree is 1 -/
+def cycle3 : Graph := [[1], [2], [0]]
+def rand3 : List Rat := [1/2, 3/10, 1/10]
+def castQ : Nat → Rat := fun k => (k : Rat)
+
+/-- the weights 3/2, 13/10, 11/10 are pairwise distinct -/
+theorem cycle3_distinct : ∀ i j, i < cycle3.length → j < cycle3.length →
+    w0 cycle3 rand3 castQ i = w0 cycle3 rand3 castQ j → i = j := by
+  have h : ∀ i, i < cycle3.length → ∀ j, j < cycle3.length →
+      w0 cycle3 rand3 castQ i = w0 cycle3 rand3 castQ j → i = j := by decide +kernel
+  exact fun i j hi hj => h i hi j hj
+
+/-- round 1 selects vertex 0 (largest weight) and makes its dependent 2 fine; vertex 1, which 0
+    depends on, stays unassigned … -/
+example : (iterN (pmisRound cycle3) 1 (pmisInit cycle3 rand3 castQ)).labels = [1, -1, 0] := by
+  decide +kernel
+
+/-- … and is selected in round 2: vertices 0 and 1 are adjacent (`1 ∈ S[0]`) and both coarse.
+    PMIS as modelled (only dependents of a new coarse point become fine) does not give an
+    independent set on a non-symmetric strength graph. -/
+example : pmis cycle3 rand3 castQ = [1, 1, 0] ∧ 1 ∈ cycle3.getD 0 [] := by decide +kernel
+
+/-- `pmis_coarse_pair` on this instance: the dependent 0 was coarse while 1 was unassigned -/
+example : ∃ k, k < 3 ∧ lab (iterN (pmisRound cycle3) k (pmisInit cycle3 rand3 castQ)) 0 = 1 ∧
+    lab (iterN (pmisRound cycle3) k (pmisInit cycle3 rand3 castQ)) 1 = -1 :=
+  pmis_coarse_pair rand3 castQ cycle3_distinct (i := 0) (j := 1) (by decide) (by decide)
+    (by decide) (by decide +kernel) (by decide +kernel)
+
+/-- the general theorems instantiate at `ℚ` (the hypotheses are satisfiable) -/
+example (S : Graph) (rand : List Rat) : total S (pmis S rand castQ) = true :=
+  (pmis_total rand castQ (by decide +kernel) S).2.2
+
+example (S : Graph) (rand : List Rat) : total S (cljp S rand castQ) = true :=
+  (cljp_total rand castQ (by decide +kernel) S).2.2
+
+example : cljp cycle3 rand3 castQ = [1, 0, 1] := by decide +kernel
+
+/-- symmetric path 0 — 1 — 2 — 3 with ties in the weights (all random parts equal): the rounds
+    still terminate with a total labelling, and the coarse points 1, 2 … -/
+def path4 : Graph := [[1], [0, 2], [1, 3], [2]]
+
+example : pmis path4 [0, 0, 0, 0] castQ = [0, 1, 1, 0] ∧
+    total path4 (pmis path4 [0, 0, 0, 0] castQ) = true := by decide +kernel
+
+/-- … are adjacent: independence needs distinct weights (`pmis_independent`); with distinct
+    weights the same graph gives an independent set -/
+example : pmis path4 [1/10, 2/10, 3/10, 4/10] castQ = [1, 0, 1, 0] ∧
+    fineHasCoarse path4 (pmis path4 [1/10, 2/10, 3/10, 4/10] castQ) = true := by decide +kernel
+
+end Examples
+
 end Raptor.C13
+
+/- OPEN (not proved): none of the requested targets 1–9 is left open.
+   Determined to be FALSE for this model (see the documentation above and the `example`s):
+   * "assigned vertices have weight 0" for the initial PMIS state (they have weight `rand i < 1`);
+   * unconditional independence of the PMIS coarse set on non-symmetric strength graphs
+     (`cycle3`), and independence with tied weights (`path4`).
+   Not attempted (outside the task list): an independence or fine-reason statement for CLJP — the
+   weight decrements of `update_weights` can create ties between unassigned vertices, so the
+   same-round argument `newCoarse_not_adjacent` does not carry over without a further invariant
+   on the edge marks. -/
